@@ -649,7 +649,7 @@ theorem blockCodeLoop_pos : ∀ (fuel : Nat) (fw : FW) (buf : List Str) (tb p : 
     split
     · exact h
     · split
-      · exact blockCodeLoop_pos fuel _ _ _ p (by rw [hn]; split <;> omega)
+      · exact blockCodeLoop_pos fuel _ _ _ p (by rw [hn]; omega)
       · split
         · show p + tb ≤ fw.next.backstep.pos
           simp only [FW.backstep, FW.next]; omega
@@ -657,27 +657,24 @@ theorem blockCodeLoop_pos : ∀ (fuel : Nat) (fw : FW) (buf : List Str) (tb p : 
 
 theorem blockCodeStart_nl : blockCodeStart ['\n'] = false := by decide
 
+/-- `BlockCode.start` is false on a whitespace-only line -/
+theorem blockCodeStart_not_blank (s : Str) (hs : blockCodeStart s = true) : isBlank s = false := by
+  unfold blockCodeStart at hs
+  cases h : isBlank s with
+  | false => rfl
+  | true => rw [h] at hs; cases hs
+
 theorem readBlockCode_adv (fw : FW) (l : Line) (hp : fw.peek = some l) (hs : blockCodeStart l.s = true) :
     fw.pos < (readBlockCode fw).2.pos := by
   have hn : fw.next.pos = fw.pos + 1 := rfl
-  have hne : (l.s == ['\n']) = false := by
-    cases h : l.s == ['\n'] with
-    | false => rfl
-    | true => simp only [beq_iff_eq] at h; rw [h, blockCodeStart_nl] at hs; cases hs
+  have hnb := blockCodeStart_not_blank l.s hs
   unfold readBlockCode
-  simp only [blockCodeLoop, hp, hs, hne]
-  split
-  · have := blockCodeLoop_pos fw.remaining fw.next (((if l.s.length < 5 then lstripSp l.s else l.s.drop 4)) :: []) 0 (fw.pos + 1) (by rw [hn]; omega)
-    simp only [Bool.false_eq_true, if_false] at this ⊢
-    generalize blockCodeLoop _ _ _ _ = r at this ⊢
-    obtain ⟨b, t, f⟩ := r
-    simp only at this ⊢
-    omega
-  · have := blockCodeLoop_pos fw.remaining fw.next [blockCodeStrip l.s 0] 0 (fw.pos + 1) (by rw [hn]; omega)
-    generalize blockCodeLoop _ _ _ _ = r at this ⊢
-    obtain ⟨b, t, f⟩ := r
-    simp only [Bool.not_true, Bool.false_eq_true, if_false] at this ⊢
-    omega
+  simp only [blockCodeLoop, hp, hs, hnb]
+  have := blockCodeLoop_pos fw.remaining fw.next [blockCodeStrip l.s 0] 0 (fw.pos + 1) (by rw [hn]; omega)
+  generalize blockCodeLoop _ _ _ _ = r at this ⊢
+  obtain ⟨b, t, f⟩ := r
+  simp only [Bool.not_true, Bool.false_eq_true, if_false] at this ⊢
+  omega
 
 theorem codeFenceLoop_pos (ld : Str) (p : Nat) : ∀ (fuel : Nat) (fw : FW) (buf : List Str), fw.pos ≤ (codeFenceLoop ld p fuel fw buf).2.pos
   | 0, fw, _ => Nat.le_refl _
